@@ -7,6 +7,8 @@
  *   rtr_init, rtr_mgr_init
  *   rtr_sync on a scripted mock transport delivering Cache Response + End of Data
  *   rtr_wait_for_sync with a fake clock; the timeout handed to the transport receive function is recorded
+ *   rtr_wait_for_sync while the PDU arrives in fragments at scripted times (the clock advances inside the transport
+ *     call): EVERY call of the transport receive function is recorded with length, timeout and clock reading
  *   rtr_start (the real state-machine thread) against a scripted cache; trace of sends and established waits
  *
  * No source hooks: the transport is a struct tr_socket of function pointers, the clock is
@@ -47,6 +49,7 @@ unsigned int sleep(unsigned int s)
 }
 
 /* ---------------------------------------------------------------- mock transport */
+#define MAXFRAG 24
 enum ek { EK_BYTES, EK_RET, EK_END };
 struct entry {
 	enum ek k;
@@ -57,6 +60,13 @@ struct entry {
 	int started;
 	long long dt; /* seconds before the event arrives (capped by the timeout asked for) */
 	int full_timeout; /* the whole timeout passes */
+	/* fragmented delivery: frag[i].n bytes become available frag[i].dt seconds after the previous fragment was
+	 * delivered (the first: after the first receive call); when the fragments are used up the cache is silent */
+	int nfrag, fi;
+	struct {
+		long long dt;
+		size_t n;
+	} frag[MAXFRAG];
 };
 #define MAXSCRIPT 512
 static struct entry script[MAXSCRIPT];
@@ -122,6 +132,38 @@ static int mock_recv(const void *s, void *buf, const size_t len, const time_t ti
 		sem_post(&done_sem);
 		for (;;)
 			pause(); /* cancellation point; rtr_stop() cancels this thread */
+	}
+	if (e->nfrag) {
+		if (!e->started) {
+			e->started = 1;
+			if (fsm_mode) {
+				tracef("W%lld@%lld", (long long)timeout, fake_now);
+				if (cur_sock->state != RTR_ESTABLISHED)
+					tracef("!wait-in-state-%d", (int)cur_sock->state);
+			}
+		}
+		tracef("R%zu:%lld@%lld", len, (long long)timeout, fake_now);
+		if (e->fi < e->nfrag && e->frag[e->fi].dt <= (long long)timeout) {
+			/* due within the timeout (a timeout of 0 polls): delivered when it is due */
+			size_t k = e->frag[e->fi].n < len ? e->frag[e->fi].n : len;
+
+			fake_now += e->frag[e->fi].dt;
+			e->frag[e->fi].dt = 0;
+			for (size_t i = 0; i < k; i++)
+				((unsigned char *)buf)[i] = e->off + i < e->len ? e->data[e->off + i] : 0;
+			e->off += k;
+			e->frag[e->fi].n -= k;
+			if (!e->frag[e->fi].n)
+				e->fi++;
+			if (e->off >= e->len)
+				sc_i++;
+			return (int)k;
+		}
+		/* nothing arrives in time: the whole timeout passes (a negative one passes no time) */
+		if ((long long)timeout > 0)
+			fake_now += (long long)timeout;
+		sc_i++;
+		return TR_WOULDBLOCK;
 	}
 	if (e->is_wait && !e->started) {
 		e->started = 1;
@@ -253,6 +295,47 @@ static struct entry *add_serial_notify(unsigned int ver)
 static struct entry *add_cache_reset(unsigned int ver)
 {
 	return add_hdr(ver, CACHE_RESET, 0, sizeof(struct pdu_header));
+}
+
+static struct entry *add_ipv4(unsigned int ver)
+{
+	struct entry *e = add_hdr(ver, IPV4_PREFIX, 0, sizeof(struct pdu_ipv4));
+
+	e->data[offsetof(struct pdu_ipv4, flags)] = 1;
+	e->data[offsetof(struct pdu_ipv4, prefix_len)] = 8;
+	e->data[offsetof(struct pdu_ipv4, max_prefix_len)] = 8;
+	put32(e->data + offsetof(struct pdu_ipv4, prefix), 0x0a000000);
+	put32(e->data + offsetof(struct pdu_ipv4, asn), 65000);
+	return e;
+}
+
+struct fragspec {
+	long long dt, n;
+};
+
+/* "<dt>.<n>": 0 <= dt < 10^6, 1 <= n <= 64 */
+static int parse_ll(const char *s, long long lo, long long hi, long long *out);
+static int parse_frag(char *w, struct fragspec *f)
+{
+	char *dot = strchr(w, '.');
+
+	if (!dot || strchr(dot + 1, '.'))
+		return 0;
+	*dot = 0;
+	int ok = parse_ll(w, 0, 999999, &f->dt) && parse_ll(dot + 1, 1, 64, &f->n);
+
+	*dot = '.';
+	return ok;
+}
+
+static void set_frags(struct entry *e, int n, const struct fragspec *f)
+{
+	e->nfrag = n;
+	e->fi = 0;
+	for (int i = 0; i < n; i++) {
+		e->frag[i].dt = f[i].dt;
+		e->frag[i].n = (size_t)f[i].n;
+	}
 }
 
 /* ---------------------------------------------------------------- parsing helpers */
@@ -439,6 +522,43 @@ static void op_wait(long long last, long long refresh, long long now, const char
 	tables_free();
 }
 
+static void op_waitf(long long last, long long refresh, long long now, const char *kind, int nf, const struct fragspec *f)
+{
+	struct rtr_socket sock;
+	struct tr_socket tr;
+	struct entry *e;
+
+	memset(&sock, 0, sizeof(sock));
+	mock_tr(&tr);
+	tables_init();
+	script_reset();
+	rtr_init(&sock, &tr, &pfx, &spki, RTR_REFRESH_DEFAULT, RTR_EXPIRATION_DEFAULT, RTR_RETRY_DEFAULT,
+		 RTR_INTERVAL_MODE_IGNORE_ANY, NULL, NULL, NULL);
+	sock.refresh_interval = (unsigned int)refresh;
+	sock.last_update = (time_t)last;
+	sock.state = RTR_ESTABLISHED;
+	sock.session_id = SESSION;
+	sock.request_session_id = false;
+	cur_sock = &sock;
+	fake_now = now;
+	if (!strcmp(kind, "notify"))
+		e = add_serial_notify(sock.version);
+	else if (!strcmp(kind, "reset"))
+		e = add_cache_reset(sock.version);
+	else
+		e = add_ipv4(sock.version);
+	set_frags(e, nf, f);
+	if (!nf) {
+		/* no fragment at all: the cache is silent from the start (fragment list used up) */
+		e->nfrag = 1;
+		e->fi = 1;
+	}
+	int rc = rtr_wait_for_sync(&sock);
+
+	printf("%d %lld%s%s\n", rc, fake_now, trace_len ? " " : "", trace);
+	tables_free();
+}
+
 static void op_mgrinit(int ngroups, const int *sizes, long long r, long long e, long long y)
 {
 	struct rtr_mgr_group groups[8];
@@ -484,6 +604,8 @@ static void op_mgrinit(int ngroups, const int *sizes, long long r, long long e, 
 struct fsm_ev {
 	char kind;
 	long long dt, e, r, y;
+	int nfrag;
+	struct fragspec frag[MAXFRAG];
 };
 
 static void op_fsm(long long mode, long long ver, long long now, long long ri, long long ei, long long yi, long long e0,
@@ -523,6 +645,10 @@ static void op_fsm(long long mode, long long ver, long long now, long long ri, l
 			w->is_wait = 1;
 			w->full_timeout = 1;
 			break;
+		case 'F':
+			w = add_serial_notify((unsigned int)ver);
+			set_frags(w, evs[i].nfrag, evs[i].frag);
+			break;
 		case 'X':
 			w = add_cache_reset((unsigned int)ver);
 			w->is_wait = 1;
@@ -535,7 +661,7 @@ static void op_fsm(long long mode, long long ver, long long now, long long ri, l
 			w->dt = evs[i].dt;
 			break;
 		}
-		if (evs[i].kind == 'N' || evs[i].kind == 'T') {
+		if (evs[i].kind == 'N' || evs[i].kind == 'T' || evs[i].kind == 'F') {
 			add_cache_response((unsigned int)ver);
 			add_eod((unsigned int)ver, (uint32_t)evs[i].r, (uint32_t)evs[i].y, (uint32_t)evs[i].e);
 		}
@@ -653,6 +779,17 @@ int main(void)
 			   (!strcmp(w[4], "notify") || !strcmp(w[4], "other") || !strcmp(w[4], "timeout") ||
 			    !strcmp(w[4], "intr") || !strcmp(w[4], "error"))) {
 			op_wait(a[0], a[1], a[2], w[4]);
+		} else if (n >= 5 && n - 5 <= MAXFRAG && !strcmp(w[0], "waitf") && TIME(w[1], &a[0]) && U32(w[2], &a[1]) &&
+			   TIME(w[3], &a[2]) && (!strcmp(w[4], "notify") || !strcmp(w[4], "reset") || !strcmp(w[4], "pfx4"))) {
+			struct fragspec fr[MAXFRAG];
+			int ok = 1;
+
+			for (int i = 5; i < n && ok; i++)
+				ok = parse_frag(w[i], &fr[i - 5]);
+			if (!ok)
+				printf("bad-op\n");
+			else
+				op_waitf(a[0], a[1], a[2], w[4], n - 5, fr);
 		} else if (n >= 10 && !strcmp(w[0], "fsm") && I32(w[1], &a[0]) && VER(w[2], &a[1]) && TIME(w[3], &a[2]) &&
 			   U32(w[4], &a[3]) && U32(w[5], &a[4]) && U32(w[6], &a[5]) && U32(w[7], &a[6]) && U32(w[8], &a[7]) &&
 			   U32(w[9], &a[8]) && n - 10 <= 64) {
@@ -678,7 +815,21 @@ int main(void)
 				else if (nf == 5 && !strcmp(f[0], "T") && !strcmp(f[1], "0") && U32(f[2], &ev->e) &&
 					 U32(f[3], &ev->r) && U32(f[4], &ev->y))
 					ev->kind = 'T';
-				else if (nf == 2 && !strcmp(f[0], "X") && parse_ll(f[1], 0, 999999, &ev->dt))
+				else if (nf == 5 && !strcmp(f[0], "F") && U32(f[2], &ev->e) && U32(f[3], &ev->r) &&
+					 U32(f[4], &ev->y) && f[1][0] != ',' && f[1][strlen(f[1]) - 1] != ',' &&
+					 !strstr(f[1], ",,")) {
+					char *sv2 = NULL;
+
+					ev->kind = 'F';
+					for (char *t = strtok_r(f[1], ",", &sv2); t && ok; t = strtok_r(NULL, ",", &sv2)) {
+						if (ev->nfrag >= MAXFRAG || !parse_frag(t, &ev->frag[ev->nfrag]))
+							ok = 0;
+						else
+							ev->nfrag++;
+					}
+					if (!ev->nfrag)
+						ok = 0;
+				} else if (nf == 2 && !strcmp(f[0], "X") && parse_ll(f[1], 0, 999999, &ev->dt))
 					ev->kind = 'X';
 				else if (nf == 2 && !strcmp(f[0], "I") && parse_ll(f[1], 0, 999999, &ev->dt))
 					ev->kind = 'I';
